@@ -32,17 +32,16 @@ TRUSTED = [
     "floats too large for 'f' are not modelled",
 ]
 NOT_MODELLED = [
-    "entities lump: executable model (Model/C11Ent.lean: entWrite / entRead over the shared tokenizer model) byte-compared with the written lump "
-    "and compared with _lmp_read_ents on well-formed and random malformed texts; no round-trip theorem beyond C02_inverse (per quoted string); "
-    "Output.parse / as_keyvalue field formatting (vmf.py) is not modelled",
-    "faces/orig_faces/hdr_faces, primitives, brushes+brushsides, nodes, leafs (+leaffaces/leafbrushes), texinfo/texdata, bmodels+physcollide, "
-    "overlays, surfedges/edges, water leaf info, detail props: struct layer (format equality reader=writer per layout, arity and range "
-    "behaviour) is modelled and proved; the field-order glue and cross-lump index rebuilding are covered by the round trip on the "
-    "implementation only (find_or_insert/find_or_extend themselves are modelled and proved)",
-    "planes, vertexes, cubemaps, leafmindisttowater, overlay fades/levels, texture name table, texdata table (index per texinfo + record order, "
-    "keyed on object identity), visibility lump, static-prop lump: "
-    "byte-compared with the model encoders on every explored world (record-level theorems: C11_struct_records + per-lump corollaries "
-    "listed in docs/notes/C11.md)",
+    "entities lump: model Model/C11Ent.lean with the round-trip theorem C11_ents (lexing via C02/C01 lemmas + the reader loop) and the "
+    "Output.parse split (C11_ents_outputs); '%g' / str() number formatting, float()/int() parsing and parse_name of vmf.py are not modelled",
+    "faces/hdr_faces/orig_faces (non-Vitamin), brushes+brushsides, nodes, leafs+leaffaces+leafbrushes+mindist, texinfo+texdata+texture names, "
+    "primitives+primindices+primverts, overlays+fades+levels, surfedges+edges: modelled as coded over object numbers with the writers' "
+    "find_or_insert/find_or_extend closures (Model/C11Lumps.lean), round-trip theorems C11_faces/_brushes/_nodes/_leafs/_texinfo/_primitives/"
+    "_overlays/_surfedges; every run byte-compares what each of these writers produced (main and side lumps, tables afterwards) with the model",
+    "planes, vertexes, cubemaps, leafmindisttowater, overlay fades/levels, texture name table, texdata table, visibility lump, static-prop lump: "
+    "byte-compared with the model encoders on every explored world (record-level theorems listed in docs/notes/C11.md)",
+    "NOT modelled (round trip on the implementation only): brush models + physcollide stream, water leaf info, detail props (except the name "
+    "dictionary), the leaf-index array of static props, VitaminSource faces, the byte layer of overlays (pad bytes vs zero face slots)",
     "pakfile lump (zipfile), LZMA-compressed lumps, lump header table and game-lump directory: property C10",
     "Cython-free: bsp.py has no Cython twin",
 ]
@@ -67,10 +66,12 @@ LEVEL_TEXT = ("Lean theorems for all inputs: struct pack/unpack round trip and r
               "find_or_extend index correctness with list-prefix preservation, guarded 128-byte name fields; decide-obligations on tables "
               "regenerated from bsp.py on every run: all formats parse, reader format = writer format for every lump record in every layout, "
               "overlay record per face count, static-prop record reader = writer = declared size in all 13 versions, every name pack site "
-              "guarded, find_or_extend bounded, isinstance order. Field-order glue of the larger lumps is tied by a per-lump save/re-read "
-              "comparison and byte comparison against the model encoders on generated worlds for all layouts and prop versions.")
+              "guarded, find_or_extend bounded, isinstance order. Entity lump (C11_ents) and the lumps with cross references (faces, brushes, nodes, "
+              "leafs, texinfo, primitives, overlays, surfedges) have writer-as-coded / reader-as-coded models over object numbers with "
+              "round-trip theorems; each writer's bytes and tables are compared with the model on every generated world, and all 20 views are "
+              "saved, re-read and compared for all layouts and prop versions.")
 LEVEL_NOTE = ("Trusted: Lean kernel + propext/Classical.choice/Quot.sound; tools/gen_bspfmt.py; harness generators/dumps. Not modelled: "
-              "entity-lump text, record glue of faces/brushes/nodes/leafs/overlays/bmodels (round trip on the implementation only), "
+              "brush models + physcollide, water leaf info, detail props, Vitamin faces (round trip on the implementation only), "
               "CPython float32 rounding, zip/LZMA.")
 TECHNIQUE = "Lean 4 proofs (induction over formats, byte lists, call sequences) + translator-generated decide obligations + differential correspondence and round-trip search on synthesised BSPs"
 DESIGN_REF = "DESIGN.md section 6, C11"
